@@ -484,6 +484,7 @@ def run_one(index, seed, runner, tier, opts):
     if case is None:
         counters["discarded"] += 1
         return {"evals": 0, "counters": counters, "distinct": [], "violations": [], "digest": "discarded", "sample": None}
+    case["extra"]["seed"] = seed
     viols, info = evaluate_case(case, runner, seed)
     shape = case["extra"]["shape"]
     counters["cases"] += 1
@@ -513,5 +514,5 @@ def run_one(index, seed, runner, tier, opts):
 
 def evaluate(case, runner):
     runner.state = {}
-    viols, _info = evaluate_case(case, runner)
+    viols, _info = evaluate_case(case, runner, int((case.get("extra") or {}).get("seed") or 0))
     return [v for v in viols if v["index"] == len(case["ops"]) - 1]
